@@ -180,6 +180,30 @@ def one(rec, t, ti, name, obj, j, rng):
         if twice != b1 + b1:
             case["xml"] = t.files
             rec.violation("serialization-not-repeatable", "tree %d %s: serializing the instance twice into one writer gives %r, expected %r twice" % (ti, name, twice, b1), case)
+    # ... nor that the writer saw another object being refused half-way in between
+    if isinstance(b1, bytes) and j % 2 == 0:
+        from vf.gen import invalidate
+
+        w3 = t.EoWriter()
+        try:
+            ss = invalidate.sites(it, obj)
+            bad = invalidate.apply(it, obj, ss[j % len(ss)], None) if ss else None
+            if bad is not None:
+                try:
+                    C.serialize(w3, br.build(bad))
+                except Exception:
+                    rec.count("refused-objects-in-between")
+        except Exception:
+            pass
+        n3 = len(w3)
+        try:
+            C.serialize(w3, inst)
+            after_refusal = bytes(w3.to_bytearray())[n3:]
+        except Exception as e:
+            after_refusal = "raise:" + type(e).__name__
+        if after_refusal != b1:
+            case["xml"] = t.files
+            rec.violation("serialization-not-repeatable", "tree %d %s: after the writer refused another object, the instance serializes to %r instead of %r" % (ti, name, after_refusal, b1), case)
     if b_again != b1:
         case["xml"] = t.files
         rec.violation("serialization-not-repeatable", "tree %d %s: after serializing the instance into a sanitising writer, a normal serialization gives %r instead of %r" % (ti, name, b_again, b1), case)
